@@ -14,30 +14,40 @@ namespace dispenso {
 
 TimedTaskScheduler::TimedTaskScheduler(ThreadPriority prio) : priority_(prio) {
   thread_ = std::thread([this, prio]() {
+    DISPENSO_VERIF_THREAD_BEGIN("tts", this, 0);
     detail::registerFineSchedulerQuanta();
     if (!setCurrentThreadPriority(prio)) {
       std::cerr << "Couldn't set thread priority" << std::endl;
     }
     timeQueueRunLoop();
+    DISPENSO_VERIF_THREAD_END("tts", this);
   });
+  DISPENSO_VERIF_THREAD_SPAWNED("tts", this, 0);
 }
 TimedTaskScheduler::~TimedTaskScheduler() {
+  DISPENSO_VERIF_POINT("TtStop", this);
   {
     std::lock_guard<std::mutex> lk(queueMutex_);
     running_ = false;
   }
   epoch_.bumpAndWake();
+  DISPENSO_VERIF_BLOCKING_BEGIN("TtJoin", this);
   thread_.join();
+  DISPENSO_VERIF_BLOCKING_END("TtJoined", this);
 }
 
 void TimedTaskScheduler::kickOffTask(std::shared_ptr<detail::TimedTaskImpl> next, double curTime) {
+  DISPENSO_VERIF_POINT("TtKickFetchSub", next.get());
   size_t remaining = next->timesToRun.fetch_sub(1, std::memory_order_acq_rel);
   if (remaining == 1) {
     auto* np = next.get();
+    DISPENSO_VERIF_POINT("TtKickCall", np);
     np->func(std::move(next));
   } else if (remaining > 1) {
+    DISPENSO_VERIF_POINT("TtKickCall", next.get());
     next->func(next);
 
+    DISPENSO_VERIF_POINT("TtKickRearm", next.get());
     if (next->steady) {
       next->nextAbsTime += next->period;
     } else {
@@ -63,6 +73,7 @@ void TimedTaskScheduler::timeQueueRunLoop() {
   uint32_t curEpoch = epoch_.current();
 
   while (true) {
+    DISPENSO_VERIF_POINT("TtLoopTop", this);
     {
       std::unique_lock<std::mutex> lk(queueMutex_);
       if (priority_ != getCurrentThreadPriority()) {
@@ -78,8 +89,10 @@ void TimedTaskScheduler::timeQueueRunLoop() {
         continue;
       }
     }
+    DISPENSO_VERIF_POINT("TtReadClock", this);
     double curTime = getTime();
     double timeRemaining;
+    DISPENSO_VERIF_POINT("TtPeek", this);
     std::unique_lock<std::mutex> lk(queueMutex_);
     timeRemaining = tasks_.top()->nextAbsTime - curTime;
     if (timeRemaining < kSmallTimeBuffer) {
@@ -103,12 +116,14 @@ void TimedTaskScheduler::timeQueueRunLoop() {
 }
 
 void TimedTaskScheduler::addTimedTask(std::shared_ptr<detail::TimedTaskImpl> task) {
+  DISPENSO_VERIF_POINT("TtAddReadClock", task.get());
   double curTime = getTime();
   double timeRemaining;
   timeRemaining = task->nextAbsTime - curTime;
   if (timeRemaining < kSmallTimeBuffer) {
     kickOffTask(std::move(task), curTime);
   } else {
+    DISPENSO_VERIF_POINT("TtAddPush", task.get());
     std::lock_guard<std::mutex> lk(queueMutex_);
     tasks_.push(std::move(task));
   }
